@@ -267,9 +267,16 @@ func checkUnfiltered(r *core.Run, m string, gs *types.Named, st *types.Struct, e
 	}
 }
 
-// getterExportsAll: "" when the getter is a store-iterator loop that appends on every cycle.
+// getterExportsAll: "" when the getter returns every stored record: either a
+// store-iterator loop that appends on every cycle, or the SDK Iterate+callback
+// idiom (a helper with such a loop that calls the callback on every cycle, and a
+// closure that appends its argument and never asks to stop). In both forms the
+// record must be decoded into a variable that is fresh in every iteration.
 func getterExportsAll(r *core.Run, g *ssa.Function) string {
 	loops := cfgx.Loops(g)
+	if len(loops) == 0 {
+		return getterViaCallback(r, g)
+	}
 	if len(loops) != 1 {
 		return fmt.Sprintf("expected exactly one iterator loop, found %d loops", len(loops))
 	}
@@ -290,7 +297,170 @@ func getterExportsAll(r *core.Run, g *ssa.Function) string {
 	if len(app) == 0 || !cutsAllCycles(l, app) {
 		return "some iteration of its loop does not append the record (a filter or continue skips it)"
 	}
+	return staleDecode(r, g, l)
+}
+
+// staleDecode: a codec Unmarshal inside the loop whose target variable is
+// allocated outside the loop. gogoproto's generated Unmarshal merges into the
+// existing value (repeated fields are appended to, fields absent from the wire
+// keep the previous record's value), so every record after the first is polluted.
+func staleDecode(r *core.Run, f *ssa.Function, l *cfgx.Loop) string {
+	res := r.Resolver(f)
+	for b := range l.Body {
+		for _, ins := range b.Instrs {
+			c, ok := ins.(ssa.CallInstruction)
+			if !ok {
+				continue
+			}
+			name, _ := res.CalleeName(c.Common())
+			if !strings.HasSuffix(name, "Unmarshal") && !strings.HasSuffix(name, "UnmarshalLengthPrefixed") {
+				continue
+			}
+			for _, a := range c.Common().Args {
+				root := a
+				for {
+					switch x := root.(type) {
+					case *ssa.MakeInterface:
+						root = x.X
+						continue
+					case *ssa.ChangeType:
+						root = x.X
+						continue
+					case *ssa.FieldAddr:
+						root = x.X
+						continue
+					}
+					break
+				}
+				al, ok := root.(*ssa.Alloc)
+				if !ok {
+					continue
+				}
+				if _, isPtrToStruct := al.Type().Underlying().(*types.Pointer).Elem().Underlying().(*types.Struct); !isPtrToStruct {
+					continue
+				}
+				if !l.Body[al.Block()] {
+					return fmt.Sprintf("the record is decoded by %s into a variable declared outside the loop (%s): the generated Unmarshal merges into the previous record (repeated fields accumulate, absent fields keep stale values)", name, r.P.Pos(al.Pos()))
+				}
+			}
+		}
+	}
 	return ""
+}
+
+// getterViaCallback recognises   k.Iterate(ctx, func(x T) bool { list = append(list, x); return false }); return list
+func getterViaCallback(r *core.Run, g *ssa.Function) string {
+	res := r.Resolver(g)
+	var helper *ssa.Function
+	var clo *ssa.Function
+	cbIdx := -1
+	for _, b := range g.Blocks {
+		for _, ins := range b.Instrs {
+			c, ok := ins.(ssa.CallInstruction)
+			if !ok {
+				continue
+			}
+			for ai, a := range c.Common().Args {
+				mc, ok := a.(*ssa.MakeClosure)
+				if !ok {
+					continue
+				}
+				_, cs := res.CalleeName(c.Common())
+				if len(cs) != 1 || helper != nil {
+					return "no iterator loop, and the callback form is not a single call of one module iterator helper"
+				}
+				helper, clo = cs[0], mc.Fn.(*ssa.Function)
+				cbIdx = ai
+				if c.Common().IsInvoke() {
+					cbIdx = ai + 1
+				} else if helper.Signature.Recv() != nil {
+					cbIdx = ai
+				}
+			}
+		}
+	}
+	if helper == nil {
+		return "expected exactly one iterator loop, found 0 loops (and no iterator helper called with a callback)"
+	}
+	// the closure: no loops, appends on every path, always returns false
+	if len(cfgx.Loops(clo)) != 0 {
+		return "callback of " + r.P.Name(helper) + " contains a loop"
+	}
+	appB := map[*ssa.BasicBlock]bool{}
+	for _, b := range clo.Blocks {
+		for _, ins := range b.Instrs {
+			if c, ok := ins.(*ssa.Call); ok {
+				if bi, ok := c.Call.Value.(*ssa.Builtin); ok && bi.Name() == "append" {
+					appB[b] = true
+				}
+			}
+		}
+	}
+	for _, b := range clo.Blocks {
+		ret, ok := b.Instrs[len(b.Instrs)-1].(*ssa.Return)
+		if !ok {
+			continue
+		}
+		dom := false
+		for x := b; x != nil; x = x.Idom() {
+			if appB[x] {
+				dom = true
+			}
+		}
+		if !dom {
+			return "the callback does not append the record on every path (a filter skips it)"
+		}
+		for _, v := range ret.Results {
+			if cst, ok := v.(*ssa.Const); !ok || cst.Value == nil || cst.Value.String() != "false" {
+				return "the callback can ask the iteration to stop (returns a non-constant or true)"
+			}
+		}
+	}
+	// the helper: one iterator loop, fresh decode, callback invoked on every cycle
+	hl := cfgx.Loops(helper)
+	if len(hl) != 1 {
+		return fmt.Sprintf("iterator helper %s: expected exactly one iterator loop, found %d", r.P.Name(helper), len(hl))
+	}
+	l := hl[0]
+	if cl := classifyLoop(r, helper, l); cl.Kind != "iterator" {
+		return "iterator helper " + r.P.Name(helper) + ": its loop is not a store-iterator loop (" + cl.Kind + ")"
+	}
+	if cbIdx < 0 || cbIdx >= len(helper.Params) {
+		return "iterator helper " + r.P.Name(helper) + ": callback parameter not identified"
+	}
+	cbParam := helper.Params[cbIdx]
+	callB := map[*ssa.BasicBlock]bool{}
+	for b := range l.Body {
+		for _, ins := range b.Instrs {
+			if c, ok := ins.(*ssa.Call); ok && c.Call.Value == cbParam {
+				callB[b] = true
+			}
+		}
+	}
+	if len(callB) == 0 || !cutsAllCycles(l, callB) {
+		return "iterator helper " + r.P.Name(helper) + " does not hand every record to the callback (a filter or continue skips it)"
+	}
+	// early exits of the loop (other than the iterator test in the header) must come after the callback
+	for b := range l.Body {
+		if b == l.Header {
+			continue
+		}
+		for _, sx := range b.Succs {
+			if l.Body[sx] {
+				continue
+			}
+			after := false
+			for x := b; x != nil && l.Body[x]; x = x.Idom() {
+				if callB[x] {
+					after = true
+				}
+			}
+			if !after {
+				return "iterator helper " + r.P.Name(helper) + " can leave its loop before handing a record to the callback"
+			}
+		}
+	}
+	return staleDecode(r, helper, l)
 }
 
 func namedIs(t types.Type, n *types.Named) bool {
